@@ -34,7 +34,7 @@ LEVEL_TEXT = ("Exploration: thousands of generated operation histories; after ea
               "inventory of the current entries, RUN_CELLS must equal USE+SAVE on twin instances restored from the RAW text, and "
               "the component list must cover every element of every entry.")
 FLOORS = {"quick": 200, "thorough": 4000}
-SHARDS = {"quick": 4, "thorough": 4}   # DEV: machine is shared; final value 8/16
+SHARDS = {"quick": 8, "thorough": 16}
 BUDGET = {"quick": 300, "thorough": 1500, "replay": 1}
 
 DB = "phreeqc.dat"
